@@ -90,6 +90,13 @@ def property_checks(inp):
     V = op.angularSpectrum(op.angularSpectrum(U, wvl, d, d, 1.6 * z), wvl, d, d, -0.6 * z)
     A(("distances add (overshoot and come back)/%s" % par, oc.relerr(V, full), 1e-9))
     A(("-z undoes +z/%s" % par, oc.relerr(op.angularSpectrum(full, wvl, d, d, -z), U), 1e-9))
+    # the group law does not depend on the length scale: nanometre-scale steps (x-ray / near-field set-ups in SI units)
+    wn, dn = 1e-10 * inp.get("nano", 1.0), 1e-9 * inp.get("nano", 1.0)
+    zn = N * dn * dn / wn * 0.2
+    one = op.angularSpectrum(U, wn, dn, dn, 2 * zn)
+    two = op.angularSpectrum(op.angularSpectrum(U, wn, dn, dn, zn), wn, dn, dn, zn)
+    A(("distances add (two nanometre-scale steps)/%s" % par, oc.relerr(two, one), 1e-9))
+    A(("a nanometre-scale step is not the identity/%s" % par, 0.0 if oc.relerr(op.angularSpectrum(U, wn, dn, dn, zn), U) > 1e-6 else 1.0, 0.0))
     # magnification round trip: equal to the input up to one constant phase
     m = inp["m"]
     back = op.angularSpectrum(op.angularSpectrum(U, wvl, d, m * d, z), wvl, m * d, d, -z)
@@ -101,8 +108,12 @@ def property_checks(inp):
     k = 2 * numpy.pi / wvl
     c = numpy.arange(-N / 2, N / 2) * d
     X, Y = numpy.meshgrid(c, c)
+    # (both sides evaluate exp(i phi) at phases up to k x2^2/(2 f) with x2 ~ wvl f/(2 d): an argument of size phi carries a
+    # rounding error ~ phi * 2^-53, so the tolerance grows with the largest phase when the sampling approaches the wavelength)
+    x2max = wvl * abs(f) / (2 * d)
+    phimax = k / (2 * abs(f)) * 2 * x2max ** 2
     A(("lensAgainst = oneStepFresnel o lens phase", oc.relerr(op.lensAgainst(U, wvl, d, f),
-        op.oneStepFresnel(U * numpy.exp(-1j * k / (2 * f) * (X ** 2 + Y ** 2)), wvl, d, f)), 1e-9))
+        op.oneStepFresnel(U * numpy.exp(-1j * k / (2 * f) * (X ** 2 + Y ** 2)), wvl, d, f)), 1e-9 + 1e-14 * phimax))
     if inp.get("gauss"):
         gaussian_checks(inp, A)
     return out
@@ -117,8 +128,8 @@ def safe_checks(inp):
 
 def gen_input(rng, gauss):
     N = rng.choice([2, 4, 6, 8, 16, 5, 9])
-    d1 = rng.loguniform(1e-4, 1e-2); wvl = rng.uniform(0.4e-6, 2e-6)
-    return {"N": N, "wvl": wvl, "d1": d1, "m": rng.choice([rng.uniform(0.5, 2.0), 2.0, 0.5]),
+    wvl = rng.uniform(0.4e-6, 2e-6); d1 = oc.gen_spacing(rng, wvl)
+    return {"N": N, "wvl": wvl, "d1": d1, "nano": rng.loguniform(0.5, 5.0), "m": rng.choice([rng.uniform(0.5, 2.0), 2.0, 0.5]),
             "z": rng.choice([-1, 1]) * rng.loguniform(0.05, 20.0) * (N * d1 * d1 / wvl),
             "f": rng.choice([-1, 1]) * rng.loguniform(0.1, 30.0), "data_seed": rng.getrandbits(32),
             "split": [rng.uniform(0.1, 1) for _ in range(rng.randint(1, 5))],
